@@ -1025,6 +1025,9 @@ class Explorer:
             except (SymUnsupported, Inconclusive) as e:
                 self.incomplete = self.incomplete or f"{type(e).__name__}: {e}"
                 self.stats.aborted += 1
+            except z3.Z3Exception as e:  # the ENGINE failed to build a term (sort mismatch, ...): a gap of the lifting, not a verdict
+                self.incomplete = self.incomplete or f"engine limitation (z3 term construction): {e}"
+                self.stats.aborted += 1
             except Exception as e:  # the real code raised on a feasible path: a candidate violation, decided by replay
                 import traceback as _tb
 
@@ -1093,6 +1096,17 @@ class SymFP(Sym):
         return self._fb(o, lambda a, b: z3.fpAdd(_RNE, a, b))
 
     __radd__ = __add__
+
+    def __mul__(self, o):
+        return self._fb(o, lambda a, b: z3.fpMul(_RNE, a, b))
+
+    __rmul__ = __mul__
+
+    def __truediv__(self, o):
+        return self._fb(o, lambda a, b: z3.fpDiv(_RNE, a, b))
+
+    def __rtruediv__(self, o):
+        return self._fb(o, lambda a, b: z3.fpDiv(_RNE, a, b), True)
 
     def __neg__(self):
         return SymFP(z3.fpNeg(self.t))
